@@ -5,8 +5,8 @@ From Verif Require Import Pipeline.Model Pipeline.Exec.
 Import ListNotations.
 
 Definition blocks5 : input := [IBlock [1%Z]; IBlock [2%Z]; IBlock [3%Z]; IBlock [4%Z]; IBlock [5%Z]].
-Definition cfg_or : cfg := mkCfg 1 blocks5 false 0%Z false true true.       (* original loop condition *)
-Definition cfg_now (n : nat) (inp : input) : cfg := mkCfg n inp false 0%Z true true true.
+Definition cfg_or : cfg := mkCfg 1 blocks5 false 0%Z false true true 10.       (* original loop condition *)
+Definition cfg_now (n : nat) (inp : input) : cfg := mkCfg n inp false 0%Z true true true 10.
 
 (* Close before anything else, then a Scan (which starts the goroutines with a cancelled context):
    with the original disjunction the reader reads all five blocks and the EOF *)
@@ -17,7 +17,7 @@ Definition rac_and : nat := rac (fst (run (cfg_now 1 blocks5) sched_close_first 
 
 (* lost cancellation error (original Next/serializer): Err() = nil although the scan was cut *)
 Definition in3 : input := [IBlock [1%Z]; IBlock []; IBlock [2%Z]].
-Definition cfg_lost : cfg := mkCfg 1 in3 false 0%Z true true false.
+Definition cfg_lost : cfg := mkCfg 1 in3 false 0%Z true true false 10.
 Definition sched_lost : list label :=
   [LApi CScan; LRd false; LRd false; LRd false; LWk 0 false; LWk 0 false; LSe false; LSe false; LSe false;
    LCo; LCo;                                   (* Scan -> true 1 *)
@@ -34,7 +34,7 @@ Definition lost_run_now := run (cfg_now 1 in3) sched_lost (init (cfg_now 1 in3))
 
 (* an object overtaking a dropped block (original serializer without the re-check) *)
 Definition in4 : input := [IBlock [1%Z]; IBlock [2%Z]; IBlock [3%Z]; IBlock [4%Z]].
-Definition cfg_over : cfg := mkCfg 1 in4 false 0%Z true false true.
+Definition cfg_over : cfg := mkCfg 1 in4 false 0%Z true false true 10.
 Definition sched_over : list label :=
   [LApi CScan; LRd false; LRd false; LRd false; LWk 0 false; LWk 0 false; LSe false; LSe false; LSe false;
    LCo; LCo;                                   (* Scan -> true 1 *)
